@@ -90,7 +90,8 @@ def split_responses(data, n):
     return res, data[pos:]
 
 
-def execute(rec, pipelined, as_generator):
+def execute(rec, pipelined, as_generator, slow=False):
+    """slow: the peer reads slowly - the kernel takes at most 11 bytes per send() and every third send() would block"""
     reqs, out = rec["reqs"], rec["out"]
     app = make_app([list(p or []) for p in rec["pieces"]], list(rec["declared"]), as_generator)
     rig = httprig.HttpServerRig("wsgi", 1, app=app)
@@ -100,7 +101,9 @@ def execute(rec, pipelined, as_generator):
         with core.watchdog():
             def settle():
                 idle = 0
-                for _ in range(300):          # service until nothing has been sent for a while
+                for n in range(300):          # service until nothing has been sent for a while
+                    if slow and not rig.closed(1):
+                        rig.f[1].sendplan = ["block"] if n % 3 == 2 else [11]
                     rig.service(1)
                     d = rig.take(1)
                     data.extend(d)
@@ -172,6 +175,12 @@ def run(ctx):
                 bad = execute(rec, pipelined, as_gen)
                 if bad:
                     ctx.violation(bad, {"rec": rec, "pipelined": pipelined, "as_generator": as_gen})
+                if as_gen is False:
+                    ctx.case((key, pipelined, "slow"))
+                    bad = execute(rec, pipelined, as_gen, slow=True)
+                    if bad:
+                        ctx.violation(bad + " [the peer reads slowly: 11 bytes per send, every third would block]",
+                                      {"rec": rec, "pipelined": pipelined, "as_generator": as_gen, "slow": True})
     ctx.exhaustive = True
     return ctx.finish(rule="one case per (request sequence x application behaviours, pipelined | one at a time, list | generator | write() calls | generator with return value)",
                       assumptions=["an application that declares a Content-Length larger than its body is outside the bounds (its response "
@@ -179,5 +188,5 @@ def run(ctx):
 
 
 def replay_case(ctx, case):
-    bad = execute(case["rec"], case["pipelined"], case["as_generator"])
+    bad = execute(case["rec"], case["pipelined"], case["as_generator"], case.get("slow", False))
     return [bad] if bad else []
